@@ -277,9 +277,10 @@ pub fn udp_strategy(max_datagrams: usize) -> impl Strategy<Value = UdpCase> {
         2 => any::<u8>().prop_map(FrameSpec::Big),
         1 => (1u8..30, any::<u8>()).prop_map(|(a, b)| FrameSpec::Tiny(a, b)),
     ];
-    (any::<bool>(), proptest::collection::vec(proptest::collection::vec(frame.clone(), 1..5), 1..max_datagrams), proptest::collection::vec(frame, 0..6)).prop_map(|(compressed, dgrams, writes)| {
+    (any::<bool>(), proptest::collection::vec(proptest::collection::vec(frame.clone(), 1..14), 1..max_datagrams), proptest::collection::vec(frame, 0..6)).prop_map(|(compressed, dgrams, writes)| {
         let mode = if compressed { Mode::Compressed } else { Mode::Uncompressed };
-        let limit = if compressed { 1020 } else { 255 };
+        // a datagram may carry up to 1020 bytes in either size mode (each frame within it obeys the mode's own limit)
+        let limit = 1020;
         let datagrams: Vec<Vec<Vec<u8>>> = dgrams
             .iter()
             .map(|d| {
@@ -304,7 +305,7 @@ pub fn parts() -> Vec<Box<dyn DynPart>> {
 }
 
 pub fn run(run: &mut Run) {
-    run.rule = "Sessions of up to 400 datagrams on a real loopback UDP socket pair, each datagram 1..4 whole frames (all kinds, unknown types, \
+    run.rule = "Sessions of up to 400 datagrams on a real loopback UDP socket pair, each datagram 1..13 whole frames (up to 1020 bytes in either size mode) (all kinds, unknown types, \
         maximum-size frames; 4..1020 bytes), cumulative traffic far beyond the 6120-byte receive buffer, sent in lock-step (send one \
         datagram, read its packets) to a blocking and a tokio connection built over the crate's UDP adaptors; then packets are written \
         and observed by the peer. Oracle: the packets read equal the frames sent, in order (each frame's verdict in isolation); every \
